@@ -15,6 +15,14 @@
                             pickers (C04 Model/Pick.v [lookup_rr]).
     Nothing of the imported models is copied or changed.  All Go panics are explicit.
 
+    Since /repo c9fb527 addRoute compiles a host that is added for the first time (C05's [add_route]
+    follows), so every host key of a built table is a valid glob and matchingHosts' MustCompile is
+    unreachable for tables NewTable returns (Proofs/TableSwap.v: [build_keys_ok]).  The builder
+    without that check is kept as [add_route_unrepaired] / [full_build_unrepaired] for the
+    refutation theorems only.  Since /repo 9bd16b3 the custom backend decodes every poll into a
+    fresh slice ([decode_fresh]); the decoder that wrote into the previous poll's definitions is
+    kept as [decode_carry_unrepaired].
+
     Weights.  C05's tables carry fixed weights as [wt] (an exact dyadic value m * 2^e, m < 2^53,
     unbounded exponent); weighTargets works on float64.  [wt_f64] is the rounding of that value to
     binary64 (nearest even, overflow to infinity, gradual underflow).  For a weight literal the
@@ -166,7 +174,7 @@ Definition broute := (route * ring)%type.
 Definition btable := list (str * list broute).
 Definition forget (bt : btable) : table := map (fun hr => (fst hr, map fst (snd hr))) bt.
 
-Definition e_invalid_cmd : N := 11%N.     (* "route: invalid command: ..." (NewTableCustom only) *)
+Definition e_invalid_cmd : N := 12%N.     (* "route: invalid command: ..." (NewTableCustom only; 11 is C05's e_invalid_host) *)
 
 Section Build.
   Variable pweight : str -> outcome wt.       (* strconv.ParseFloat *)
@@ -263,6 +271,46 @@ Section Build.
            end
     end.
 End Build.
+
+(* ---- the builder before /repo c9fb527: addRoute compiled the path only (refutation theorems) ---- *)
+Section BuildUnrepaired.
+  Variable pweight : str -> outcome wt.
+  Variable canon : str -> option str.
+  Variable glob_ok : str -> bool.
+  Variable rb : list f64 -> outcome ring.
+
+  Definition add_route_unrepaired (t : table) (d : def) : outcome table :=
+    let '(host0, path) := hostpath (d_src d) in
+    let host := lower host0 in
+    match d_src d with [] => Err e_invalid_prefix | _ =>
+    match d_dst d with [] => Err e_invalid_target | _ =>
+    match canon (d_dst d) with None => Err e_url | Some url =>
+      let fresh := add_target (d_svc d) url (d_w d) (d_tags d) (d_opts d)
+                              {| r_path := path; r_targets := [] |} in
+      match lookup host t with
+      | None => if glob_ok path then Ok (t ++ [(host, [fresh])]) else Err e_glob
+      | Some _ => add_route canon glob_ok t d          (* existing hosts were never re-checked *)
+      end
+    end end end.
+  Definition apply_def_c02_unrepaired (t : table) (d : def) : outcome table :=
+    match d_cmd d with
+    | CmdAdd => add_route_unrepaired t d
+    | _ => apply_def canon glob_ok t d
+    end.
+  Definition build_step_unrepaired (t : table) (d : def) : outcome table :=
+    do t' <- apply_def_c02_unrepaired t d;
+    do _ <- weigh_all rb (touched d t');
+    Ok t'.
+  Fixpoint build_from_unrepaired (t : table) (ds : list def) : outcome table :=
+    match ds with
+    | [] => Ok t
+    | d :: ds' => do t' <- build_step_unrepaired t d; build_from_unrepaired t' ds'
+    end.
+  Definition full_build_unrepaired (text : str) : outcome btable :=
+    do ds <- parse pweight text;
+    do t <- build_from_unrepaired [] ds;
+    ring_table rb (sort_table t).
+End BuildUnrepaired.
 
 (* ====================================================================================== *)
 (** * Table.Lookup on a built table                                                         *)
@@ -367,4 +415,53 @@ Definition custom_step (cbuild : list (option def) -> outcome btable) (cell : bt
   | Panic => None
   | Ok bt => Some (set_table btable cell (Some bt))
   | Err _ => Some (set_table btable cell None)
+  end.
+
+(* ---- what a poll of the custom backend delivers: a JSON array of objects in which any key may
+        be missing.  encoding/json leaves the field of a missing key as it finds it. ---- *)
+Record rawdef := {
+  w_cmd : option cmd;          (* None = a Cmd string that is none of the three commands ("" too) *)
+  w_svc : str; w_src : str; w_dst : str; w_w : wt; w_tags : list str; w_opts : list (str * str)
+}.
+Definition raw_zero : rawdef :=
+  {| w_cmd := None; w_svc := []; w_src := []; w_dst := []; w_w := WZ; w_tags := []; w_opts := [] |}.
+Record jdef := {                (* None = the key is absent from the object *)
+  j_cmd : option (option cmd);
+  j_svc : option str; j_src : option str; j_dst : option str; j_w : option wt;
+  j_tags : option (list str); j_opts : option (list (str * str))
+}.
+Definition oget {A} (o : option A) (d : A) : A := match o with Some a => a | None => d end.
+(* decoding one object into an existing element *)
+Definition merge (base : rawdef) (j : jdef) : rawdef :=
+  {| w_cmd := oget (j_cmd j) (w_cmd base); w_svc := oget (j_svc j) (w_svc base);
+     w_src := oget (j_src j) (w_src base); w_dst := oget (j_dst j) (w_dst base);
+     w_w := oget (j_w j) (w_w base); w_tags := oget (j_tags j) (w_tags base);
+     w_opts := oget (j_opts j) (w_opts base) |}.
+Definition to_def (r : rawdef) : option def :=
+  match w_cmd r with
+  | Some c => Some {| d_cmd := c; d_svc := w_svc r; d_src := w_src r; d_dst := w_dst r; d_w := w_w r;
+                      d_tags := w_tags r; d_opts := w_opts r |}
+  | None => None
+  end.
+(* registry/custom/custom.go since 9bd16b3: `var Routes *[]route.RouteDef` inside the loop *)
+Definition decode_fresh (js : list jdef) : list rawdef := map (merge raw_zero) js.
+(* before: Decode(&Routes) into the slice of the previous poll - element i starts from the previous
+   poll's element i (elements beyond the previous length start from the zero value) *)
+Fixpoint decode_carry_unrepaired (prev : list rawdef) (js : list jdef) : list rawdef :=
+  match js with
+  | [] => []
+  | j :: js' => match prev with
+                | p :: prev' => merge p j :: decode_carry_unrepaired prev' js'
+                | [] => merge raw_zero j :: decode_carry_unrepaired [] js'
+                end
+  end.
+(* one poll: decode, NewTableCustom, SetTable *)
+Definition custom_poll (cbuild : list (option def) -> outcome btable) (cell : btable) (js : list jdef)
+  : option btable := custom_step cbuild cell (map to_def (decode_fresh js)).
+Definition custom_poll_unrepaired (cbuild : list (option def) -> outcome btable)
+           (st : btable * list rawdef) (js : list jdef) : option (btable * list rawdef) :=
+  let raws := decode_carry_unrepaired (snd st) js in
+  match custom_step cbuild (fst st) (map to_def raws) with
+  | Some cell' => Some (cell', raws)
+  | None => None
   end.
